@@ -2,12 +2,15 @@ package sim
 
 import (
 	"fmt"
+	"os"
 	"math/big"
 
 	sdk "github.com/cosmos/cosmos-sdk/types"
 
 	beacontypes "github.com/unification-com/mainchain/x/beacon/types"
 	wrkchaintypes "github.com/unification-com/mainchain/x/wrkchain/types"
+
+	"verifharness/lab"
 )
 
 type regObs struct {
@@ -300,6 +303,40 @@ func regHooks(prop string) Hooks {
 			if !w.stop() {
 				regCompare(w, w.Bcn)
 			}
+		},
+		// "every later query", "never change afterwards", "held in state" also hold for a node that was started from
+		// an exported state (the way a chain is upgraded): the final state is exported, imported into a fresh chain
+		// and compared with the model once more. An import that fails is C15's subject and is skipped here.
+		Finish: func(w *World) {
+			if w.stop() || w.Diverged || w.C.InBlock || len(w.Wrk.Regs)+len(w.Bcn.Regs) == 0 {
+				return
+			}
+			state, err := w.C.Export()
+			if err != nil {
+				w.Class(lower(prop) + ".export-failed")
+				return
+			}
+			b, err := lab.ImportAppState(w.S.Gen, lab.NodeOpts{DB: "mem", SkipGenesisInv: true}, state, w.C.Now)
+			if err != nil {
+				w.Class(lower(prop) + ".import-failed")
+				if os.Getenv("VERIF_DEBUG_IMPORT") != "" {
+					fmt.Println("IMPORT-FAILED:", short(err.Error()))
+				}
+				return
+			}
+			defer b.Close()
+			orig := w.C
+			w.C = b
+			n := len(w.Findings)
+			regCompare(w, w.Wrk)
+			if !w.stop() {
+				regCompare(w, w.Bcn)
+			}
+			w.C = orig
+			for i := n; i < len(w.Findings); i++ {
+				w.Findings[i].Msg = "on a chain started from the exported final state: " + w.Findings[i].Msg
+			}
+			w.Class(lower(prop) + ".checked-after-export-import")
 		},
 	}
 }
